@@ -55,6 +55,8 @@ pub struct ConcOpts {
     pub check_end: bool,
     /// C13
     pub class: bool,
+    /// C03: sequential epilogue (drain, free everything held, drain)
+    pub epilogue: bool,
     pub verbose: bool,
     /// known findings (id, substrings) tolerated inside the crash oracle
     pub tolerate: Vec<(String, Vec<String>)>,
@@ -1039,6 +1041,48 @@ impl Exec {
         }
     }
 
+    /// C03: the well-behaved history goes on sequentially after the concurrent part: drain,
+    /// free every held block, drain again. Latent damage (a slot naming an unreserved tree,
+    /// an inflated counter, a cleared bit of a held block) surfaces as a panic or a failing free.
+    fn epilogue(&mut self) {
+        let a = self.alloc();
+        let lower_only = self.lower_only;
+        if !lower_only && let Err(p) = guarded(|| a.drain()) {
+            self.panicked("epilogue drain", p);
+            return;
+        }
+        for t in 0..self.n {
+            for b in std::mem::take(&mut self.held[t]) {
+                let r = guarded(|| {
+                    if lower_only {
+                        a.lower.put(FrameId(b.frame), b.order)
+                    } else {
+                        a.put(FrameId(b.frame), Request::new(b.order, Class(0), None))
+                    }
+                });
+                match r {
+                    Err(p) => {
+                        self.panicked(&format!("epilogue put({b:?})"), p);
+                        return;
+                    }
+                    Ok(Err(e)) => {
+                        self.violate("C03", format!("epilogue: put of block {b:?} held by thread {t} failed with {e:?}"), None);
+                        return;
+                    }
+                    Ok(Ok(())) => {
+                        for f in b.range() {
+                            self.owned[f] = FREE;
+                        }
+                    }
+                }
+            }
+        }
+        if !lower_only && let Err(p) = guarded(|| a.drain()) {
+            self.panicked("epilogue drain", p);
+        }
+        self.feat("epilogue");
+    }
+
     // ---- quiescent end check (C04) ------------------------------------------------------
 
     fn check_end(&mut self) {
@@ -1320,6 +1364,9 @@ pub fn run_conc(case: &ConcCase, opts: &ConcOpts) -> ConcOutcome {
         give_stack(c.into_stack());
     }
     exec.out.steps = exec.step;
+    if exec.out.violation.is_none() && exec.out.feat("step_limit_hit") == 0 && opts.epilogue {
+        exec.epilogue();
+    }
     if exec.out.violation.is_none() && exec.out.feat("step_limit_hit") == 0 {
         if opts.crash {
             exec.crash_check(true);
